@@ -70,7 +70,16 @@ fn gen_len(ctx: &mut Ctx, lo: usize, hi: usize, stratum: Option<usize>) -> usize
             const B: [usize; 14] = [0, 1, 2, 3, 4, 0x7b, 0x7c, 0x7d, 0x7e, 0x7f, 0x80, 0x81, 0xff, 0x100];
             (lo + B[ctx.choose("len_b", B.len() as u64) as usize]).min(hi)
         }
-        4 => hi - ctx.choose("len_top", 4.min((hi - lo + 1) as u64)) as usize,
+        4 => {
+            if ctx.chance("len_block_multiple", 1, 2) {
+                // bodies that are exact multiples of 4 / 8 / 16 KiB, and their neighbours
+                let base = *ctx.pick("len_block", &[0x1000usize, 0x2000, 0x4000, 0x8000, 0xC000, 0x3fff, 0x7fff]);
+                let hdr = lo.max(2);
+                (base + hdr + ctx.choose("len_block_d", 3) as usize).saturating_sub(1).clamp(lo, hi)
+            } else {
+                hi - ctx.choose("len_top", 4.min((hi - lo + 1) as u64)) as usize
+            }
+        }
         5 => lo + ctx.choose("len_mid", 2000.min((hi - lo + 1) as u64)) as usize,
         _ => lo + ctx.choose("len_any", (hi - lo + 1) as u64) as usize,
     }
